@@ -79,7 +79,7 @@ func c03(c *Ctx) {
 	r.Floor("R2.success-gates", 7)
 	r.Floor("R3.merkle-arguments", 20)
 	r.Floor("R4.bounds-to-error", 3)
-	r.Floor("R5.prover-agreement", 3)
+	r.Floor("R5.prover-agreement", 4)
 
 	vp := p.SSAPkg("validation")
 	// the entry point: HeaderValidator method (header, proof []byte) error with >= 3 comparisons against constants
@@ -585,6 +585,29 @@ func c03(c *Ctx) {
 				}
 			}
 			r.Check(same, "R5.prover-agreement", "MixInLength copies", p.Pos(fns[0].Pos()), fmt.Sprintf("%d copies perform the same calls with the same constants", len(fns)), "the copies of MixInLength in different packages compute differently (prover and verifier roots drift apart)")
+		}
+		// the accumulator builder mixes the same length into every epoch root that the prover puts
+		// into its proofs as the last sibling: the constant epoch size (an honest proof for a header
+		// of a partial last epoch must verify against the root the builder produced)
+		isMix := map[*ssa.Function]bool{}
+		for _, f := range fns {
+			isMix[f] = true
+		}
+		nmix := 0
+		for _, fn := range p.ModuleFuncs() {
+			if fn.Pkg == nil || fn.Pkg != p.SSAPkg("history") || fn.Signature.Recv() == nil || core.TypeName(fn.Signature.Recv().Type()) != "Accumulator" {
+				continue
+			}
+			core.Calls(fn, func(ci ssa.CallInstruction) {
+				f := core.StaticCalleeFn(ci)
+				if f == nil || !isMix[f] || len(ci.Common().Args) != 2 {
+					return
+				}
+				nmix++
+				k, isC := core.ConstInt(ci.Common().Args[1])
+				r.Check(isC && k == 8192, "R5.prover-agreement", fmt.Sprintf("%s mixes-in-epoch-size #%d", core.FuncName(fn), nmix), p.Pos(ci.Pos()),
+					"the epoch root mixes in the constant 8192, the value the prover appends as the length sibling", "the accumulator builder mixes a length other than the constant epoch size into an epoch root while the prover's proofs carry 8192: honest proofs for that epoch do not verify")
+			})
 		}
 	}
 }
